@@ -157,3 +157,69 @@ func VerifC04_sized() {
 func VerifC04_updated() {
 	verifUpdated()
 }
+
+// VerifC04_earlydefault: a default alignment given to column 0 before any column exists is only a
+// default: once it is changed or withdrawn, columns created in between follow the current default
+// (they never keep a copy of the old one), and a column's own later setting wins.
+func VerifC04_earlydefault() {
+	t := New()
+	early := 2 + vfChoice("early", 2) // right or centre, set on the still empty table
+	vfSetAlign(t, 0, early)
+	one := func(s string) vfCellSpec { return vfCellSpec{lines: vfLinesOf(s), declW: -1, declH: -1} }
+	t.AddHeaders("head-one", "head-two")
+	t.AddRowItems("a", "b\ncc")
+	hdr := []vfCellSpec{one("head-one"), one("head-two")}
+	rows := []vfRowSpec{{cells: []vfCellSpec{one("a"), one("b\ncc")}}}
+	ncols := 2
+	if vfChoice("grow-later", 2) == 1 {
+		t.AddRowItems("x", "y", "third")
+		rows = append(rows, vfRowSpec{cells: []vfCellSpec{one("x"), one("y"), one("third")}})
+		ncols = 3
+	}
+	final := vfChoice("final", 4) // 0: withdrawn
+	if final == 0 {
+		t.Column(0).SetProperty(align.PropertyType, nil)
+	} else {
+		vfSetAlign(t, 0, final)
+	}
+	own := vfChoice("own", 4) // column 2's own setting
+	vfSetAlign(t, 2, own)
+	aligns := make([]int, ncols)
+	for i := range aligns {
+		aligns[i] = final
+	}
+	if own != 0 {
+		aligns[1] = own
+	}
+	name := vfDecoNames[vfChoice("deco", 3)]
+	t.SetDecorationNamed(name)
+	d := decoration.Named(name)
+	out, err := t.Render()
+	vfAssert(err == nil, "render-ok")
+	want := vfRefRender(d, d == decoration.NoBox(), true, hdr, rows, ncols, aligns)
+	vfAssert(out == want, "every-cell-line-in-its-slot-aligned-as-asked")
+	vfObserveStr("out", out)
+}
+
+// VerifC04_carriage: a carriage return is content like any other zero-width character, also right
+// before a line feed or at the end of the text: it stays in its line, in its slot.
+func VerifC04_carriage() {
+	texts := []string{"a\r\nbb", "ab\r", "\rx", "a\rb", "a\r\n\r\nb", "\r"}
+	s := texts[vfChoice("text", len(texts))]
+	one := func(s string) vfCellSpec { return vfCellSpec{lines: vfLinesOf(s), declW: -1, declH: -1} }
+	t := New()
+	t.AddHeaders("h1", "h2")
+	t.AddRowItems(s, "q")
+	a := vfChoice("align", 4)
+	vfSetAlign(t, 1, a)
+	name := vfDecoNames[vfChoice("deco", 3)]
+	t.SetDecorationNamed(name)
+	d := decoration.Named(name)
+	out, err := t.Render()
+	vfAssert(err == nil, "render-ok")
+	hdr := []vfCellSpec{one("h1"), one("h2")}
+	rows := []vfRowSpec{{cells: []vfCellSpec{one(s), one("q")}}}
+	want := vfRefRender(d, d == decoration.NoBox(), true, hdr, rows, 2, []int{a, 0})
+	vfAssert(out == want, "every-cell-line-in-its-slot-aligned-as-asked")
+	vfObserveStr("out", out)
+}
